@@ -1,0 +1,178 @@
+//! Verification-only observation points (compiled only with `--cfg transparencies_stretto_verif`).
+//!
+//! Nothing here changes behaviour: the functions report plain data to the simulator's
+//! observation sink and take read-only snapshots of the cache's internal state.
+#![allow(missing_docs)]
+
+use crate::policy::{PolicyInner, PolicyPair};
+use std::hash::BuildHasher;
+use stretto_sim_rt::obs::{self, Obs};
+
+pub(crate) fn policy_add_enter<S: BuildHasher + Clone + 'static>(
+    inner: &PolicyInner<S>,
+    key: u64,
+    cost: i64,
+) {
+    if !obs::enabled() {
+        return;
+    }
+    let (max_cost, used, key_costs) = inner.verif_costs();
+    obs::emit(Obs::AddEnter {
+        key,
+        cost,
+        max_cost,
+        used,
+        key_costs,
+        inc_est: inner.verif_estimate(key),
+    });
+}
+
+pub(crate) fn policy_add_round<S: BuildHasher + Clone + 'static>(
+    inner: &PolicyInner<S>,
+    room: i64,
+    sample: &[PolicyPair],
+) {
+    if !obs::enabled() {
+        return;
+    }
+    obs::emit(Obs::AddRound {
+        room,
+        sample: sample
+            .iter()
+            .map(|p| (p.key, p.cost, inner.verif_estimate(p.key)))
+            .collect(),
+    });
+}
+
+pub(crate) fn policy_add_exit<S: BuildHasher + Clone + 'static>(
+    inner: &PolicyInner<S>,
+    key: u64,
+    cost: i64,
+    added: bool,
+    victims: Option<&[PolicyPair]>,
+) {
+    if !obs::enabled() {
+        return;
+    }
+    let (max_cost, used, key_costs) = inner.verif_costs();
+    obs::emit(Obs::AddExit {
+        key,
+        cost,
+        added,
+        victims: victims.map(|v| v.iter().map(|p| (p.key, p.cost)).collect()),
+        max_cost,
+        used,
+        key_costs,
+    });
+}
+
+pub(crate) fn policy_push(keys: &[u64], kept: bool, queue_len: usize, closed: bool) {
+    if !obs::enabled() {
+        return;
+    }
+    obs::emit(Obs::Push {
+        keys: keys.to_vec(),
+        kept,
+        queue_len,
+        closed,
+    });
+}
+
+pub(crate) fn policy_applied(keys: &[u64]) {
+    if !obs::enabled() {
+        return;
+    }
+    obs::emit(Obs::Applied {
+        keys: keys.to_vec(),
+    });
+}
+
+/// One resident entry as seen in the store.
+#[derive(Clone, Debug)]
+pub struct Entry<V> {
+    pub index: u64,
+    pub conflict: u64,
+    pub value: V,
+    /// creation instant (ns since the Unix epoch) of the entry's `Time`
+    pub created_ns: u64,
+    /// TTL in ns; 0 = no expiry
+    pub ttl_ns: u64,
+}
+
+/// Read-only snapshot of a cache's internal state.  `None` fields mean a lock was held by
+/// another task at the time of the snapshot.
+#[derive(Clone, Debug)]
+pub struct Snapshot<V> {
+    pub entries: Option<Vec<Entry<V>>>,
+    /// (max_cost, used, sorted (key, charge))
+    pub policy: Option<(i64, i64, Vec<(u64, i64)>)>,
+    /// sorted (bucket number, sorted (key, conflict))
+    pub buckets: Option<Vec<(i64, Vec<(u64, u64)>)>>,
+    /// popularity estimates for the requested keys
+    pub estimates: Option<Vec<(u64, i64)>>,
+    pub insert_buf_len: usize,
+    pub policy_queue_len: usize,
+    pub item_size: usize,
+    pub is_closed: bool,
+    pub policy_closed: bool,
+}
+
+macro_rules! impl_verif_snapshot {
+    ($cache: ident) => {
+        impl<K, V, KH, C, U, CB, S> crate::$cache<K, V, KH, C, U, CB, S>
+        where
+            K: std::hash::Hash + Eq,
+            V: Send + Sync + Clone + 'static,
+            KH: crate::KeyBuilder<Key = K>,
+            C: crate::Coster<Value = V>,
+            U: crate::UpdateValidator<Value = V>,
+            CB: crate::CacheCallback<Value = V>,
+            S: BuildHasher + Clone + 'static,
+        {
+            /// Take a snapshot without blocking (uses `try_*` on every lock).
+            pub fn verif_snapshot(&self, estimate_keys: &[u64]) -> Snapshot<V> {
+                let pol = self.policy.inner.0.try_lock();
+                let (policy, estimates) = match pol {
+                    Some(g) => (
+                        Some(g.verif_costs()),
+                        Some(
+                            estimate_keys
+                                .iter()
+                                .map(|k| (*k, g.verif_estimate(*k)))
+                                .collect(),
+                        ),
+                    ),
+                    None => (None, None),
+                };
+                Snapshot {
+                    entries: self.store.verif_entries(),
+                    policy,
+                    buckets: self.store.verif_buckets(),
+                    estimates,
+                    insert_buf_len: self.insert_buf_tx.len(),
+                    policy_queue_len: self.policy.items_tx.len(),
+                    item_size: self.store.item_size(),
+                    is_closed: self.is_closed.load(std::sync::atomic::Ordering::SeqCst),
+                    policy_closed: self
+                        .policy
+                        .is_closed
+                        .load(std::sync::atomic::Ordering::SeqCst),
+                }
+            }
+
+            /// The (index, conflict) pair the cache's key builder assigns to `key`.
+            pub fn verif_key_hash<Q>(&self, key: &Q) -> (u64, u64)
+            where
+                K: core::borrow::Borrow<Q>,
+                Q: core::hash::Hash + Eq + ?Sized,
+            {
+                self.key_to_hash.build_key(key)
+            }
+        }
+    };
+}
+
+#[cfg(feature = "sync")]
+impl_verif_snapshot!(Cache);
+#[cfg(feature = "async")]
+impl_verif_snapshot!(AsyncCache);
